@@ -32,7 +32,10 @@ RULE = ("PDE instances with <=6 nodes and <=6 time levels (quick) / <=7 (thoroug
         "stored levels = DECISION: floating whenever the recurrence leaves the integers); genuinely complex problems through the real embedding; observe() alone on exactly bicubic data; the assumed laws of scipy's interpolants "
         "checked on scipy itself; memory layouts (Fortran, strided, negative strides, read-only), np.matrix and LinearOperator operators; omitted optional "
         "arguments, call styles, re-assigned attributes and swapped PDE objects; falsy-but-legitimate values; operators without nice structure; threshold "
-        "sizes (1-4 nodes / levels); observation nodes in any order; Jacobians of every shape; solutions with two space axes; KL / KL_Full / CustomKL / Step / mapped fields of the test problems; values inside cells are "
+        "sizes (1-4 nodes / levels); observation nodes in any order; Jacobians of every shape; round-4 lesson families (refusals in every life-cycle state; gradient with reused argument arrays and instance-attribute "
+        "callables; Samples / CUQIarray inputs incl. one column; exact zeros inside data; Fortran / work-buffer observation maps, strided and namedtuple solver "
+        "answers, np.str_ time_obs; integer solution arrays; a direct PDE subclass; two models around one PDE; grid offset 2^24 / time offset 2^20; the shipped "
+        "defaults of Heat1D / Poisson1D); solutions with two space axes; KL / KL_Full / CustomKL / Step / mapped fields of the test problems; values inside cells are "
         "seeded. distinct = distinct (configuration, parameter, API path); trivial = single-level time grids and refused "
         "constructors")
 
@@ -239,6 +242,10 @@ class SolverBox:
         if self.kind == "real_inplace" and isinstance(A_in, np.ndarray) and isinstance(b_in, np.ndarray):
             A_in[...] = np.nan
             b_in[...] = np.nan
+        if self.kind == "real_strided":         # the answer is a non-contiguous view into a larger work array
+            big = np.full(2 * len(x) + 1, np.nan)
+            big[1::2] = x
+            x = big[1::2]
         if self.kind == "real_buffer":
             if self.buf is None or self.buf.shape != np.shape(x):
                 self.buf = np.empty(np.shape(x))
@@ -248,10 +255,15 @@ class SolverBox:
             info = [k, kw["tag"]]
         elif self.kind == "real_tuple1":
             info = []
+        elif self.kind == "real_named":
+            info = [k]
         self.rec.solver_calls.append({"A": A.tolist(), "b": b.tolist(), "x": np.array(x, dtype=complex if np.iscomplexobj(x) else float).tolist(), "info": info,
                                       "extra_args": len(args), "kw": sorted(kw)})
         if info is None:
             return x
+        if self.kind == "real_named":           # a tuple SUBCLASS, as many scipy routines return
+            import collections
+            return collections.namedtuple("SolveResult", ["x", "ncall"])(x, k)
         return (x,) + tuple(info)
 
 
@@ -421,6 +433,23 @@ def asgrid_obs(cfg):
     return np.array(g, dtype=cfg.get("gobs_dtype") or float)
 
 
+def wrap_omap(f, style):
+    """the same observation map returning its result Fortran-ordered / in a persistent work buffer that it reuses"""
+    if f is None or not style:
+        return f
+    box = {}
+
+    def g(u):
+        r = np.asarray(f(u))
+        if style == "fortran":
+            return np.asfortranarray(r) if r.ndim == 2 else r
+        if "buf" not in box or box["buf"].shape != r.shape:
+            box["buf"] = np.empty(r.shape)
+        box["buf"][...] = r
+        return box["buf"]
+    return g
+
+
 def drop_defaults(cfg, kw):
     """cfg["omit_defaults"]: every optional constructor argument whose value is the documented default is NOT passed"""
     if not cfg.get("omit_defaults"):
@@ -434,9 +463,11 @@ def mk_td(cuqi, cfg, rec, form=None):
     tobs = cfg["tobs"]
     if isinstance(tobs, list):
         tobs = np.array(tobs, dtype=float) if cfg.get("tobs_as_array", True) else list(tobs)
+    elif isinstance(tobs, str) and cfg.get("tobs_np_str"):
+        tobs = np.str_(tobs)                    # a str subclass
     form = form or np_form(cfg["af"], style=cfg.get("style"))
     kw = dict(time_obs=tobs, method=cfg["method"], grid_sol=aslist(cfg["gsol"], cfg.get("gsol_dtype")), grid_obs=asgrid_obs(cfg),
-              observation_map=pymap(cfg["omap"]), **mk_solver_args(cfg, rec))
+              observation_map=wrap_omap(pymap(cfg["omap"]), cfg.get("omap_style")), **mk_solver_args(cfg, rec))
     if cfg.get("lskw") == "empty" and "linalg_solve_kwargs" not in kw:
         kw["linalg_solve_kwargs"] = {}
     times = aslist(cfg["times"], cfg.get("times_dtype"))
@@ -456,7 +487,7 @@ def mk_td(cuqi, cfg, rec, form=None):
 
 def mk_ss(cuqi, cfg, rec, form=None):
     form = form or np_form(cfg["af"], steady=True, style=cfg.get("style"))
-    kw = dict(grid_sol=aslist(cfg["gsol"], cfg.get("gsol_dtype")), grid_obs=asgrid_obs(cfg), observation_map=pymap(cfg["omap"]), **mk_solver_args(cfg, rec))
+    kw = dict(grid_sol=aslist(cfg["gsol"], cfg.get("gsol_dtype")), grid_obs=asgrid_obs(cfg), observation_map=wrap_omap(pymap(cfg["omap"]), cfg.get("omap_style")), **mk_solver_args(cfg, rec))
     if cfg.get("lskw") == "empty" and "linalg_solve_kwargs" not in kw:
         kw["linalg_solve_kwargs"] = {}
     if cfg.get("reassign"):
@@ -475,6 +506,14 @@ def outcome(f):
         return ("ok", f())
     except Exception as e:
         return ("err", type(e).__name__)
+
+
+def tobs_of(pde):
+    """the parsed observation times the object holds (whatever they are, should the parsing have gone wrong)"""
+    try:
+        return np.asarray(pde._time_obs, dtype=float).tolist()
+    except Exception:
+        return [repr(pde._time_obs)]
 
 
 def info_list(i):
@@ -503,7 +542,7 @@ def drive_td_direct(cuqi, cfg, p, form=None, assemble=True):
             o = ("ok", np.real(o[1]))
         return {"stage": "run", "u": u, "udtype": np.asarray(u_raw).dtype.kind, "uimag": float(np.max(np.abs(np.imag(u_raw)))) if np.size(u_raw) else 0.0,
                 "info": info_list(info), "obs": o, "ninterp": len(rec.i2), "rec": rec,
-                "time_obs": np.asarray(pde._time_obs, dtype=float).tolist(), "grids_equal": bool(pde.grids_equal)}
+                "time_obs": tobs_of(pde), "grids_equal": bool(pde.grids_equal)}
 
 
 def drive_ss_direct(cuqi, cfg, p, form=None, assemble=True):
@@ -689,6 +728,8 @@ def o_check_levels(cfg, p, u, info, rec_calls, tol):
             exp_info = []
         elif cfg["solver"] == "cg_tuple":
             exp_info = [0]
+        elif cfg["solver"] == "real_named":
+            exp_info = [nt - 2]
     if info != exp_info:
         return "info %s, expected %s (extra return values of the last solve)" % (info, exp_info)
     return None
@@ -831,7 +872,7 @@ def oracle_ss(cfg, p, ob, assembled=True):
         bscale = max(abs(float(v)) for v in b) + n * max(abs(float(v)) for r in A for v in r) * max(abs(float(v)) for v in x)
         if res > 1e-8 * bscale:
             return ("A(p) u = b(p) violated: residual %g" % res, "SteadyStateLinearPDE.solve")
-    exp_info = [0, cfg["tag"]] if cfg["solver"] in ("real_tuple", "fake_tuple") else [] if cfg["solver"] == "real_tuple1" else [0] if cfg["solver"] == "cg_tuple" else None
+    exp_info = [0, cfg["tag"]] if cfg["solver"] in ("real_tuple", "fake_tuple") else [] if cfg["solver"] == "real_tuple1" else [0] if cfg["solver"] in ("cg_tuple", "real_named") else None
     if ob["info"] != exp_info:
         return ("info %s expected %s" % (ob["info"], exp_info), "LinearPDE._solve_linear_system")
     gs, go = cfg["gsol"], cfg["gobs"]
@@ -895,8 +936,9 @@ def oracle_poly_ss(cfg, p, ob):
     same = grids_identical(gs, go)
     if ob["stage"] != "run" or ob["obs"][0] != "ok":
         return ("observe() raised on a scaled/perturbed grid: %s" % (ob.get("err") or ob["obs"][1]), "SteadyStateLinearPDE.observe")
-    E = np.array([float(poly_eval(P["q"], frac(float(x)) / s) + frac(float(p[0]))) for x in go])
-    nodal = np.array([float(poly_eval(P["q"], frac(float(x)) / s) + frac(float(p[0]))) for x in gs])
+    g0 = frac(float(P.get("goff", 0.0)))
+    E = np.array([float(poly_eval(P["q"], (frac(float(x)) - g0) / s) + frac(float(p[0]))) for x in go])
+    nodal = np.array([float(poly_eval(P["q"], (frac(float(x)) - g0) / s) + frac(float(p[0]))) for x in gs])
     o = np.asarray(ob["obs"][1], dtype=float)
     what = "grid scale 2^%d, grid_obs = grid_sol %s" % (P["s_exp"], P["pert"])
     if not rel_tol_close(o, E, POLY_TOL):
@@ -926,8 +968,10 @@ def oracle_poly_td(cfg, p, ob):
         return ("observe() raised on a scaled/perturbed grid: %s" % (ob.get("err") or ob["obs"][1]), "TimeDependentLinearPDE.observe")
     t0 = frac(float(times[0]))
 
+    g0 = frac(float(P.get("goff", 0.0)))
+
     def u(x, t):
-        xi = frac(float(x)) / s
+        xi = (frac(float(x)) - g0) / s
         return float(poly_eval(P["q1"], xi) + frac(float(p[0])) + (frac(float(t)) - t0) / ts * poly_eval(P["q2"], xi))
     E = np.array([[u(x, t) for t in tobs] for x in go])
     nodal = np.array([[u(x, times[-1])] for x in gs])
@@ -1283,10 +1327,10 @@ def pert_name(pt):
     return "-".join(str(x) for x in pt)
 
 
-def scaled_grids(n, h, s_exp, pt):
-    """grid_sol = 2^s_exp * (1, 1+h, ...); grid_obs per perturbation kind; None if the perturbation is not representable/inside"""
+def scaled_grids(n, h, s_exp, pt, goff=0.0):
+    """grid_sol = goff + 2^s_exp * (1, 1+h, ...); grid_obs per perturbation kind; None if the perturbation is not representable/inside"""
     s = 2.0 ** s_exp
-    gs = [s * (1 + i * h) for i in range(n)]
+    gs = [goff + s * (1 + i * h) for i in range(n)]
     dtype = None
     if pt[0] == "copy":
         go = list(gs)
@@ -1301,7 +1345,7 @@ def scaled_grids(n, h, s_exp, pt):
         go = list(gs)
         idx = range(n) if pt[2] == "all" else [n // 2]
         for i in idx:
-            d = gs[i] * 2.0 ** -pt[1] if pt[0] == "rel" else 2.0 ** -pt[1]
+            d = (gs[i] - goff) * 2.0 ** -pt[1] if pt[0] == "rel" else 2.0 ** -pt[1]
             go[i] = gs[i] - d if i == n - 1 else gs[i] + d
         if any(not (gs[0] <= v <= gs[-1]) for v in go) or any(b <= a for a, b in zip(go, go[1:])) or go == gs:
             return None
@@ -1310,9 +1354,9 @@ def scaled_grids(n, h, s_exp, pt):
     return gs, go, dtype
 
 
-def poly_ss_cfg(rng, n, s_exp, pt, solver):
+def poly_ss_cfg(rng, n, s_exp, pt, solver, goff=0.0):
     h = rng.choice([1, 0.5])
-    g = scaled_grids(n, h, s_exp, pt)
+    g = scaled_grids(n, h, s_exp, pt, goff)
     if g is None:
         return None
     gs, go, dtype = g
@@ -1323,14 +1367,14 @@ def poly_ss_cfg(rng, n, s_exp, pt, solver):
     af = {"A0": I, "At": Z, "Ap": [], "b0": [float(poly_eval(q, x)) for x in xi], "bt": [0] * n, "Bp": [[1]] * n, "c0": [0] * n, "ct": [0] * n,
           "Cp": [[0]] * n}
     return {"steady": True, "af": af, "solver": solver, "tag": 3, "gsol": gs, "gobs": go, "gobs_dtype": dtype, "omap": ["none"],
-            "poly": {"s_exp": s_exp, "q": q, "pert": pert_name(pt)}}
+            "poly": {"s_exp": s_exp, "q": q, "pert": pert_name(pt), "goff": goff}}
 
 
-def poly_td_cfg(rng, n, nt, s_exp, t_exp, pt, tp, method, solver):
+def poly_td_cfg(rng, n, nt, s_exp, t_exp, pt, tp, method, solver, goff=0.0, toff=0.0):
     """A = 0, source q2(x/s)/ts constant in time, initial condition q1(x/s) + p_0: both Euler methods give
     u(x, t) = q1 + p_0 + (t - t0)/ts q2 exactly"""
     h = rng.choice([1, 0.5])
-    g = scaled_grids(n, h, s_exp, pt)
+    g = scaled_grids(n, h, s_exp, pt, goff)
     if g is None:
         return None
     gs, go, dtype = g
@@ -1339,7 +1383,7 @@ def poly_td_cfg(rng, n, nt, s_exp, t_exp, pt, tp, method, solver):
     times = [0.0]
     for d in dts:
         times.append(times[-1] + d)
-    times = [ts * t for t in times]
+    times = [toff + ts * t for t in times]
     T, span = times[-1], times[-1] - times[0]
     if tp is None:
         tobs, tname = "final", "final"
@@ -1356,7 +1400,7 @@ def poly_td_cfg(rng, n, nt, s_exp, t_exp, pt, tp, method, solver):
     af = {"A0": Z, "At": Z, "Ap": [], "b0": [float(poly_eval(q2, x) / Fr(ts)) for x in xi], "bt": [0] * n, "Bp": [[0]] * n,
           "c0": [float(poly_eval(q1, x)) for x in xi], "ct": [0] * n, "Cp": [[1]] * n}
     return {"af": af, "times": times, "method": method, "solver": solver, "tag": 3, "gsol": gs, "gobs": go, "gobs_dtype": dtype, "tobs": tobs,
-            "omap": ["none"], "poly": {"s_exp": s_exp, "t_exp": t_exp, "q1": q1, "q2": q2, "pert": pert_name(pt), "tpert": tname}}
+            "omap": ["none"], "poly": {"s_exp": s_exp, "t_exp": t_exp, "q1": q1, "q2": q2, "pert": pert_name(pt), "tpert": tname, "goff": goff}}
 
 
 # ------------------------------------------------------------------------------------------------
@@ -1513,9 +1557,13 @@ def cases_td_forward(cuqi, cfg, plist, a, d, q, cell):
                          signature="TimeDependentLinearPDE.__init__")]
         pde = r[1]
         model = mk_model(cuqi, pde, len(plist[0]), a, d, swap=bool(cfg.get("swap_pde")))
+        models = [(model, a, d)]
+        if cfg.get("two_models"):       # a second model (other domain map) around the SAME PDE object, used in turn
+            models.append((mk_model(cuqi, pde, len(plist[0]), 2, 1), 2, 1))
         prev = None
         alive = []
-        for x in plist:
+        for ci, x in enumerate(plist):
+            model, a, d = models[ci % len(models)]
             rec.reset()
             if cfg.get("reuse_input"):
                 xbuf[:] = x
@@ -1614,9 +1662,13 @@ def cases_ss_forward(cuqi, cfg, plist, a, d, cell):
     with Patches(rec):
         pde = mk_ss(cuqi, cfg, rec)
         model = mk_model(cuqi, pde, len(plist[0]), a, d, swap=bool(cfg.get("swap_pde")))
+        models = [(model, a, d)]
+        if cfg.get("two_models"):
+            models.append((mk_model(cuqi, pde, len(plist[0]), 2, 1), 2, 1))
         prev = None
         alive = []
-        for x in plist:
+        for ci, x in enumerate(plist):
+            model, a, d = models[ci % len(models)]
             rec.reset()
             if cfg.get("reuse_input"):
                 xbuf[:] = x
@@ -1752,6 +1804,283 @@ def case_oracle_law(rng, which):
             fail = "interp1d(kind='quadratic') is not exact at its nodes"
         meta = {"kind": "law", "which": which, "x": x}
     return Case(expr="true", meta=meta, cell="oracle-law/%s" % which, kind="DECISION", impl_fail=fail, signature="scipy-oracle-law|%s" % which if fail else "")
+
+
+# ---------------- round-4 lesson families ----------------
+def finish_td(pde, rec):
+    """solve() + observe() on an existing object -> observation record (as drive_td_direct)"""
+    r = outcome(pde.solve)
+    if r[0] == "err":
+        return {"stage": "solve", "err": r[1], "rec": rec}
+    u_raw, info = r[1]
+    u = np.array(np.real(u_raw), dtype=float)
+    o = outcome(lambda: pde.observe(u_raw))
+    if o[0] == "ok":
+        o = ("ok", np.real(o[1]))
+    return {"stage": "run", "u": u, "udtype": np.asarray(u_raw).dtype.kind, "uimag": 0.0, "info": info_list(info), "obs": o, "ninterp": len(rec.i2), "rec": rec,
+            "time_obs": tobs_of(pde), "grids_equal": bool(pde.grids_equal)}
+
+
+def case_lifecycle_td(cuqi, rng, q, sk):
+    """L14: the refusals (solve before assemble, invalid method) in every life-cycle state, and the state they leave behind"""
+    n, npar = rng.randint(3, 4), 2
+    for attempt in range(20):
+        cfg = {"af": gen_af(rng, n, npar, "all", True), "times": gen_times(rng, "nonuniform", 4), "method": "forward_euler", "solver": sk, "tag": 3,
+               "gsol": None, "gobs": None, "tobs": "final", "omap": ["none"]}
+        cfg2 = dict(cfg, method="backward_euler")
+        p = gen_p(rng, npar)
+        if sk.startswith("fake") or well_conditioned(cfg2, p):
+            break
+    rec = Recorder()
+    notes = []
+    with Patches(rec):
+        pde = mk_td(cuqi, cfg, rec)
+        r0 = outcome(pde.solve)                                      # fresh: refused
+        notes.append(("solve() on a fresh object", r0 == ("err", "AttributeError")))
+        pde.assemble(np.array(p))
+        ob1 = finish_td(pde, rec)
+        rb = outcome(lambda: setattr(pde, "method", "euler"))       # refused in the state "after solve"
+        notes.append(("method='euler' after a solve is refused with ValueError", rb == ("err", "ValueError")))
+        notes.append(("the refused assignment left method unchanged", pde.method == "forward_euler"))
+        rec.reset()
+        ob2 = finish_td(pde, rec)
+        notes.append(("solve() after the refused assignment repeats the forward-Euler levels",
+                      ob1["stage"] == "run" and ob2["stage"] == "run" and np.array_equal(ob1["u"], ob2["u"])))
+        pde.method = "backward_euler"                                  # accepted: the next solve is backward Euler
+        rb2 = outcome(lambda: setattr(pde, "method", ""))
+        notes.append(("method='' after a change is refused", rb2 == ("err", "ValueError") and pde.method == "backward_euler"))
+        rec.reset()
+        ob3 = finish_td(pde, rec)
+    bad = [m for m, ok in notes if not ok]
+    tol2, tol3 = td_tol(cfg, p), td_tol(cfg2, p)
+    expr = "check_td %s %s %s && check_td %s %s %s && %s" % (td_cfg_term(cfg, q, Recorder(), tol2), qcv(p), td_obs_term(ob2),
+                                                           td_cfg_term(cfg2, q, rec, tol3), qcv(p), td_obs_term(ob3), cbool(not bad))
+    f = oracle_td(cfg, p, ob2, q) or oracle_td(cfg2, p, ob3, q)
+    if f is None and bad:
+        f = ("life cycle of a TimeDependentLinearPDE object: " + "; ".join(bad), "TimeDependentLinearPDE.method")
+    return Case(expr=expr, meta={"kind": "lifecycle", "cfg": cfg, "p": p}, cell="td/lifecycle/%s" % sk, impl_fail=f[0] if f else None, signature=f[1] if f else "")
+
+
+def case_lifecycle_ss(cuqi, rng, sk):
+    n, npar = rng.randint(3, 4), 2
+    for attempt in range(20):
+        cfg = {"steady": True, "af": gen_af(rng, n, npar, "all", False, steady=True), "solver": sk, "tag": 3, "gsol": None, "gobs": None, "omap": ["none"]}
+        p1, p2 = gen_p(rng, npar), gen_p(rng, npar)
+        if sk.startswith("fake") or (well_conditioned(cfg, p1) and well_conditioned(cfg, p2)):
+            break
+    rec = Recorder()
+    notes = []
+    with Patches(rec):
+        pde = mk_ss(cuqi, cfg, rec)
+        notes.append(("solve() on a fresh object is refused", outcome(pde.solve) == ("err", "Exception")))
+        notes.append(("a second solve() on the still unassembled object is refused too", outcome(pde.solve) == ("err", "Exception")))
+        pde.assemble(np.array(p1))
+        pde.solve()
+        pde.assemble(np.array(p2))
+        rec.reset()
+        r = outcome(pde.solve)
+        sol, info = r[1]
+        sol = np.array(sol, dtype=float)
+        ob = {"stage": "run", "sol": sol, "info": info_list(info), "obs": outcome(lambda: pde.observe(sol)), "ninterp": len(rec.i1), "rec": rec}
+    bad = [m for m, ok in notes if not ok]
+    tol = "0" if sk.startswith("fake") else "12"
+    expr = "check_ss %s true %s %s && %s" % (ss_cfg_term(cfg, rec, tol), qcv(p2), ss_obs_term(ob), cbool(not bad))
+    f = oracle_ss(cfg, p2, ob, True)
+    if f is None and bad:
+        f = ("life cycle of a SteadyStateLinearPDE object: " + "; ".join(bad), "SteadyStateLinearPDE.solve")
+    return Case(expr=expr, meta={"kind": "lifecycle_ss", "cfg": cfg, "p": p2}, cell="ss/lifecycle/%s" % sk, impl_fail=f[0] if f else None, signature=f[1] if f else "")
+
+
+def case_gradient_reused(cuqi, rng, have_g, have_j, instance_attr):
+    """L15 / L23: gradient called repeatedly with the SAME direction and wrt array objects, overwritten in place between the calls;
+    the PDE's gradient callables given as class attributes or as attributes of the instance"""
+    nout, npar = rng.choice([(3, 3), (4, 2), (2, 4)])
+    mk = lambda: [[rng.randint(-2, 2) for _ in range(npar)] for _ in range(nout)]
+    G, J = (mk(), mk()), (mk(), mk())
+    gfun = lambda direction, wrt: np.asarray(direction) @ (np.array(G[0], float) + wrt[0] * np.array(G[1], float))
+    jfun = lambda wrt: np.array(J[0], float) + wrt[0] * np.array(J[1], float)
+    ns = {}
+    if not instance_attr:
+        if have_g:
+            ns["gradient_wrt_parameter"] = lambda self, direction, wrt: gfun(direction, wrt)
+        if have_j:
+            ns["jacobian_wrt_parameter"] = lambda self, wrt: jfun(wrt)
+    cls = type("UserPDE", (cuqi.pde.SteadyStateLinearPDE,), ns)
+    pde = cls(lambda p: (np.eye(nout), np.ones(nout)))
+    if instance_attr:
+        if have_g:
+            pde.gradient_wrt_parameter = gfun
+        if have_j:
+            pde.jacobian_wrt_parameter = jfun
+    model = cuqi.model.PDEModel(pde, cuqi.geometry.Continuous1D(nout), cuqi.geometry.Continuous1D(npar))
+    dbuf, wbuf = np.zeros(nout), np.zeros(npar)
+    exprs, fail = [], None
+    enc = lambda M: "None" if M is None else "(Some (%s, %s))" % (qcm(M[0]), qcm(M[1]))
+    w0 = [rng.choice([-1, 0.5, 1, 2]) for _ in range(npar)]
+    seq = [([rng.choice([-1, 0.5, 1, 2]) for _ in range(nout)], w0), ([rng.choice([-1, 0.5, 1, 2]) for _ in range(nout)], [w0[0] + 1] + w0[1:]),
+           ([rng.choice([-1, 0.5, 1, 2]) for _ in range(nout)], w0)]
+    for d_, w_ in seq:
+        dbuf[:] = d_
+        wbuf[:] = w_
+        o = outcome(lambda: np.array(model.gradient(dbuf, wbuf), dtype=float))
+        want = ("ok", gfun(d_, np.array(w_))) if have_g else ("ok", np.array(d_) @ jfun(np.array(w_))) if have_j else ("err", "NotImplementedError")
+        if fail is None and (want[0] != o[0] or (want[0] == "err" and o[1] != want[1]) or (want[0] == "ok" and not arr_close(o[1], want[1], 1e-12))):
+            fail = "gradient(direction=%s, wrt=%s) with reused argument arrays = %s, the PDE's own direction-Jacobian product is %s" % (
+                d_, w_, o[1] if o[0] == "err" else o[1].tolist(), want[1] if want[0] == "err" else want[1].tolist())
+        if not (np.array_equal(dbuf, d_) and np.array_equal(wbuf, w_)):
+            fail = fail or "gradient() altered its argument arrays"
+        exprs.append("check_gradient %s %s %s %s %s %s %s" % (enc(G if have_g else None), enc(J if have_j else None), qcs(1), qcs(0), qcv(d_), qcv(w_), cres(o, qcv)))
+    return Case(expr=" && ".join(exprs), meta={"kind": "gradient_reused", "have_g": have_g, "have_j": have_j, "instance": instance_attr, "G": G, "J": J, "seq": seq},
+                cell="gradient/reused-arguments/%s%s/%s" % ("g" if have_g else "-", "j" if have_j else "-", "instance-attr" if instance_attr else "class-attr"),
+                impl_fail=fail, signature="PDEModel._gradient_func" if fail else "")
+
+
+def cases_forward_samples(cuqi, rng, sk, ns, kind):
+    """L16 / L21: the model applied to a composite input -- a Samples object of ns parameter vectors (ns = 1 included; two columns nearly
+    identical) or a CUQIarray: every column is the assemble-solve-observe pipeline of that column"""
+    n, npar = rng.randint(3, 4), 2
+    for attempt in range(30):
+        cfg = {"steady": True, "af": gen_af(rng, n, npar, "all", False, steady=True), "solver": sk, "tag": 0, "gsol": None, "gobs": None, "omap": ["none"], "tol": "12"}
+        cols = [gen_p(rng, npar) for _ in range(ns)]
+        if ns >= 3:
+            cols[2] = [cols[1][0] * (1 + 2.0 ** -20), cols[1][1]]
+        if sk.startswith("fake") or all(well_conditioned(cfg, c) for c in cols):
+            break
+    rec = Recorder()
+    with Patches(rec):
+        pde = mk_ss(cuqi, cfg, rec)
+        dom = cuqi.geometry.Continuous1D(npar)
+        model = cuqi.model.PDEModel(pde, cuqi.geometry.Continuous1D(n), dom)
+        X = np.array(cols, dtype=float).T
+        if kind == "samples":
+            r = outcome(lambda: model.forward(cuqi.samples.Samples(X.copy(), geometry=dom)))
+            outs = ("ok", np.asarray(r[1].samples, dtype=float)) if r[0] == "ok" and isinstance(r[1], cuqi.samples.Samples) else ("err", r[1] if r[0] == "err" else "NotSamples")
+        else:
+            r = outcome(lambda: model.forward(cuqi.array.CUQIarray(X[:, 0].copy(), geometry=dom)))
+            outs = ("ok", np.asarray(r[1], dtype=float).reshape(-1, 1)) if r[0] == "ok" and isinstance(r[1], cuqi.array.CUQIarray) else ("err", r[1] if r[0] == "err" else "NotCUQIarray")
+        calls = list(rec.solver_calls)
+    out = []
+    ncol = ns if kind == "samples" else 1
+    for j in range(ncol):
+        recj = Recorder()
+        recj.solver_calls = calls[j:j + 1] if not sk.startswith("fake") else []
+        o = ("ok", outs[1][:, j]) if outs[0] == "ok" and outs[1].shape == (n, ncol) else ("err", outs[1] if outs[0] == "err" else "WrongShape")
+        expr = "check_ss_forward %s %s %s None %s %s" % (ss_cfg_term(cfg, recj, "0" if sk.startswith("fake") else "12"), qcs(1), qcs(0), qcv(cols[j]), cres(o, carr))
+        ob = drive_ss_direct(cuqi, cfg, cols[j])
+        fail, sig = None, ""
+        if o[0] == "err" or ob["stage"] != "run" or not arr_close(o[1], ob["obs"][1], 1e-13):
+            fail = "forward(%s of %d parameter vectors): column %d = %s, the pipeline for that column gives %s" % (
+                kind, ncol, j, o[1] if o[0] == "err" else o[1].tolist(), ob["obs"][1].tolist() if ob["stage"] == "run" else ob.get("err"))
+            sig = "PDEModel._forward_func"
+        else:
+            f2 = oracle_ss(cfg, cols[j], ob)
+            if f2:
+                fail, sig = f2
+        out.append(Case(expr=expr, meta={"kind": "forward_samples", "cfg": cfg, "cols": cols, "col": j, "input": kind}, cell="ss/forward-%s/Ns=%d/%s" % (kind, ncol, sk),
+                        impl_fail=fail, signature=sig))
+    return out
+
+
+def case_custom_pde(cuqi, rng):
+    """L24: a user PDE that derives directly from cuqi.pde.PDE (not from LinearPDE): PDEModel's output and gradient are those of ITS
+    assemble / solve / observe and of ITS Jacobian"""
+    n, npar = rng.randint(3, 5), rng.randint(2, 3)
+    Mm = np.array([[rng.randint(-2, 2) for _ in range(npar)] for _ in range(n)], dtype=float)
+    c = np.array([rng.randint(-2, 2) for _ in range(n)], dtype=float)
+    idx = sorted(rng.sample(range(n), rng.randint(1, n)))
+    log = []
+
+    class UserPDE(cuqi.pde.PDE):
+        def assemble(self, parameter):
+            log.append("assemble")
+            self._rhs = Mm @ np.asarray(parameter) + c
+
+        def solve(self):
+            log.append("solve")
+            return 2 * self._rhs, ("user-info",)
+
+        def observe(self, solution):
+            log.append("observe")
+            return solution[idx]
+
+        def jacobian_wrt_parameter(self, wrt):
+            return 2 * Mm[idx] * (1 + wrt[0])
+    pde = UserPDE(None)
+    model = cuqi.model.PDEModel(pde, cuqi.geometry.Continuous1D(len(idx)), cuqi.geometry.Continuous1D(npar))
+    fail = None
+    for x in [gen_p(rng, npar), gen_p(rng, npar)]:
+        del log[:]
+        o = outcome(lambda: np.asarray(model.forward(np.array(x)), dtype=float))
+        want = (2 * (Mm @ np.array(x) + c))[idx]
+        if o[0] != "ok" or not np.array_equal(o[1], want) or log != ["assemble", "solve", "observe"]:
+            fail = fail or "PDEModel around a direct subclass of cuqi.pde.PDE: forward(%s) = %s with calls %s; its assemble-solve-observe gives %s" % (x, o[1] if o[0] == "err" else o[1].tolist(), log, want.tolist())
+        d_ = [rng.choice([-1, 0.5, 2]) for _ in idx]
+        g = outcome(lambda: np.asarray(model.gradient(np.array(d_), np.array(x)), dtype=float))
+        wantg = np.array(d_) @ (2 * Mm[idx] * (1 + x[0]))
+        if g[0] != "ok" or not arr_close(g[1], wantg, 1e-13):
+            fail = fail or "PDEModel around a direct subclass of cuqi.pde.PDE: gradient = %s, direction @ its Jacobian = %s" % (g[1] if g[0] == "err" else g[1].tolist(), wantg.tolist())
+    return Case(expr="true", meta={"kind": "custom_pde", "M": Mm.tolist(), "idx": idx}, cell="custom-PDE-subclass", kind="DECISION", impl_fail=fail,
+                signature="PDEModel._forward_func" if fail else "")
+
+
+def case_tp_defaults(cuqi, which):
+    """L22: the shipped defaults of the PDE test problems (dim=128, endpoint=1, max_time=0.2), not only the small sizes of the other cells"""
+    fail = None
+    with ScriptedRandom(seed=1):
+        if which == "Heat1D":
+            tp = cuqi.testproblem.Heat1D()
+            N = 128
+            dx = 1.0 / (N + 1)
+            Dxx = (np.diag(-2 * np.ones(N)) + np.diag(np.ones(N - 1), -1) + np.diag(np.ones(N - 1), 1)) / dx ** 2
+            t = np.linspace(0, 0.2, int(0.2 / (5 / 11 * dx ** 2)) + 1)
+            x = np.sin(np.pi * np.linspace(dx, 1, N, endpoint=False)) + 0.25
+            u = x.copy()
+            for k in range(len(t) - 1):
+                u = u + (t[k + 1] - t[k]) * (Dxx @ u)
+            want = u
+        else:
+            tp = cuqi.testproblem.Poisson1D()
+            N = 127
+            dx = 1.0 / N
+            Dx = -np.diag(np.ones(N), 0) + np.diag(np.ones(N - 1), 1)
+            e0 = np.zeros(N)
+            e0[0] = 1
+            Dx = np.concatenate([e0.reshape(1, -1), Dx], axis=0) / dx
+            x = 1.0 + 0.5 * np.cos(3 * np.linspace(0, 1, 128))
+            want = REAL_SOLVE(Dx.T @ np.diag(x) @ Dx, 10 * np.exp(-((np.linspace(dx, 1, N, endpoint=False) - 0.5) ** 2) / 0.02))
+    o = outcome(lambda: np.asarray(tp.model.forward(x), dtype=float))
+    if o[0] != "ok" or not arr_close(o[1], want, 1e-9):
+        fail = "%s() with its shipped defaults: model.forward differs from the documented discretisation (%s)" % (
+            which, o[1] if o[0] == "err" else "max deviation %.3g of %.3g" % (float(np.max(np.abs(o[1] - want))) if np.shape(o[1]) == np.shape(want) else float("nan"), float(np.max(np.abs(want)))))
+    return Case(expr="true", meta={"kind": "tp_defaults", "which": which}, cell="testproblem/%s/shipped-defaults" % which, kind="DECISION", impl_fail=fail,
+                signature="%s.model" % which if fail else "")
+
+
+def case_observe_int(cuqi, rng, q, tkind):
+    """L20: observe() handed an INTEGER-dtype solution array (integer grids and times), interpolated at half-integer points"""
+    n, nt = rng.randint(4, 6), rng.randint(4, 6)
+    gs, times = [float(i) for i in range(n)], [float(k) for k in range(nt)]
+    go = [g + 0.5 for g in gs[:-1]]
+    tobs = "final" if tkind == "final" else [times[1] + 0.5, times[-1]]
+    C = bicubic(rng)
+    U = np.array([[int(bicubic_eval(C, x, t)) for t in times] for x in gs], dtype=np.int64)
+    cfg = {"af": None, "times": times, "method": "forward_euler", "solver": "default", "tag": 0, "gsol": gs, "gobs": go, "tobs": tobs, "omap": ["none"]}
+    rec = Recorder()
+    with Patches(rec):
+        pde = mk_td(cuqi, cfg, rec, form=lambda p, t: (np.eye(n), np.zeros(n), np.zeros(n)))
+        o = outcome(lambda: np.asarray(pde.observe(U)))
+    tl = [times[-1]] if tobs == "final" else tobs
+    E = np.array([[float(bicubic_eval(C, x, t)) for t in tl] for x in go])
+    if len(tl) == 1:
+        E = E[:, 0]
+    fail = None
+    if o[0] != "ok" or o[1].dtype.kind != "f" or not arr_close(o[1], E, 1e-10, float(np.max(np.abs(U)))):
+        fail = "observe() of an int64 solution array at half-integer points: %s (dtype %s), the bicubic polynomial there is %s" % (
+            o[1] if o[0] == "err" else o[1].ravel()[:6].tolist(), getattr(o[1], "dtype", None), E.ravel()[:6].tolist())
+    ot = "(Ok (%s, %s))" % (cbool(len(rec.i2) > 0), carr(o[1])) if o[0] == "ok" else "(Er %s)" % ecode(o[1])
+    expr = "check_td_observe %s %s %s %s %s OMNone %s %s %s %s" % (cquirks(q), cgrid(gs), cgrid(go), qcv(times), ctobs(tobs), enc_i2(rec), ctol("12"), qcols(U.astype(float)), ot)
+    return Case(expr=expr, meta={"kind": "observe_int", "C": C, "n": n, "nt": nt, "tkind": tkind}, cell="td/observe-int-solution/%s" % tkind,
+                impl_fail=fail, signature="TimeDependentLinearPDE.observe" if fail else "")
 
 
 # ---------------- complex-valued problems, modelled through the real embedding z -> (Re z, Im z) ----------------
@@ -2700,6 +3029,103 @@ def run(ctx):
                 cell = "ss/unsorted-grid_obs/%s/%s" % (kind, sk)
                 cases.add(cell, "ss_direct", lambda: case_ss_direct(cuqi, cfg, plist[0], cell), cfg=cfg, p=plist[0], assembled=True)
                 cases.add(cell, "ss_forward", lambda: cases_ss_forward(cuqi, cfg, plist, 1, 0, cell), cfg=cfg, plist=plist, a=1, d=0)
+
+    # ---- 5j. families from the round-4 lessons (L14-L26) ---------------------------------------------------------------------------------
+    for _ in range(reps if not ctx.thorough else 2):
+        for sk in ["default", "fake_tuple"]:                                                        # L14 refusals in every life-cycle state
+            cases.add("td/lifecycle", "lifecycle", lambda: case_lifecycle_td(cuqi, rng, q, sk))
+            cases.add("ss/lifecycle", "lifecycle_ss", lambda: case_lifecycle_ss(cuqi, rng, sk))
+        for hg, hj in [(True, False), (False, True), (True, True), (False, False)]:                 # L15 over time + L23 instance attributes
+            for inst in (False, True):
+                cases.add("gradient/reused-arguments", "gradient_reused", lambda: case_gradient_reused(cuqi, rng, hg, hj, inst))
+        for sk in ["default", "fake"]:                                                               # L16 composite input kinds, L21 one column
+            for ns in [1, 3]:
+                cases.add("ss/forward-samples", "forward_samples", lambda: cases_forward_samples(cuqi, rng, sk, ns, "samples"))
+            cases.add("ss/forward-cuqiarray", "forward_samples", lambda: cases_forward_samples(cuqi, rng, sk, 1, "cuqiarray"))
+        for method, sk in [("forward_euler", "default"), ("backward_euler", "fake"), ("backward_euler", "default")]:   # L18 exact zeros inside generic data
+            n, npar = rng.randint(3, 5), 2
+            for attempt in range(20):
+                af = gen_af(rng, n, npar, "all", False)
+                af = dict(af, b0=[0 if i % 2 == 0 else rng.choice([-2, 1, 3]) for i in range(n)], c0=[rng.choice([-1, 2]) if i % 2 == 0 else 0 for i in range(n)])
+                cfg = {"af": af, "times": gen_times(rng, "nonuniform", 4), "method": method, "solver": sk, "tag": 0, "gsol": None, "gobs": None, "tobs": "final", "omap": ["none"]}
+                plist = [[0.0, 2.0], [1.5, 0.0], [0.0, 2.0]]
+                if sk == "fake" or method == "forward_euler" or all(well_conditioned(cfg, x) for x in plist):
+                    break
+            cell = "td/zeros-inside/%s/%s" % (method, sk)
+            cases.add(cell, "td_forward", lambda: cases_td_forward(cuqi, cfg, plist, 1, 0, q, cell), cfg=cfg, plist=plist, a=1, d=0)
+        n, npar = rng.randint(3, 5), 2
+        for attempt in range(20):
+            af = gen_af(rng, n, npar, "all", False, steady=True)
+            cfg = {"steady": True, "af": dict(af, b0=[0 if i % 2 == 0 else 2 for i in range(n)]), "solver": "default", "tag": 0, "gsol": None, "gobs": None, "omap": ["none"]}
+            plist = [[0.0, 2.0], [1.5, 0.0]]
+            if all(well_conditioned(cfg, x) for x in plist):
+                break
+        cases.add("ss/zeros-inside", "ss_forward", lambda: cases_ss_forward(cuqi, cfg, plist, 1, 0, "ss/zeros-inside"), cfg=cfg, plist=plist, a=1, d=0)
+        for ostyle, om0, tkind in [("fortran", "mat", "all"), ("fortran", "square", "arr_offnodes"), ("buffer", "scale", "all"), ("buffer", "mat", "final")]:   # L19
+            n, nt, npar = rng.randint(4, 5), rng.randint(4, 5), 2
+            times = gen_times(rng, "nonuniform", nt)
+            gs, go = gen_grids(rng, n, "offnodes")
+            tobs, as_arr = gen_tobs(rng, tkind, times)
+            if tkind == "arr_offnodes" and len(tobs) < 2:
+                tobs = sorted({(times[0] + times[1]) / 2, (times[1] + times[2]) / 2})
+            om = fix_omap(rng, gen_omap(rng, om0, n), len(go))
+            cfg = {"af": gen_af(rng, n, npar, "all", True), "times": times, "method": "forward_euler", "solver": "default", "tag": 0, "gsol": gs, "gobs": go, "tobs": tobs,
+                   "tobs_as_array": as_arr, "omap": om, "omap_style": ostyle}
+            p = gen_p(rng, npar)
+            cell = "td/style/omap-%s/%s/%s" % (ostyle, om0, tkind)
+            cases.add(cell, "td_direct", lambda: case_td_direct(cuqi, cfg, p, q, cell), cfg=cfg, p=p)
+        for kind in ["td", "ss"]:
+            for sk in ["real_strided", "real_named"]:                                              # L19 strided answers, L23 tuple subclass
+                n, npar = rng.randint(3, 5), 2
+                for attempt in range(20):
+                    if kind == "td":
+                        cfg = {"af": gen_af(rng, n, npar, "all", True), "times": gen_times(rng, "nonuniform", 4), "method": "backward_euler", "solver": sk, "tag": 0,
+                               "gsol": None, "gobs": None, "tobs": "all", "tobs_np_str": True, "omap": ["none"]}
+                    else:
+                        cfg = {"steady": True, "af": gen_af(rng, n, npar, "all", False, steady=True), "solver": sk, "tag": 0, "gsol": None, "gobs": None, "omap": ["none"]}
+                    plist = [gen_p(rng, npar), gen_p(rng, npar)]
+                    if all(well_conditioned(cfg, x) for x in plist):
+                        break
+                cell = "%s/style/solver-%s" % (kind, sk)
+                if kind == "td":
+                    cases.add(cell, "td_direct", lambda: case_td_direct(cuqi, cfg, plist[0], q, cell), cfg=cfg, p=plist[0])
+                    cases.add(cell, "td_forward", lambda: cases_td_forward(cuqi, cfg, plist, 1, 0, q, cell), cfg=cfg, plist=plist, a=1, d=0)
+                else:
+                    cases.add(cell, "ss_forward", lambda: cases_ss_forward(cuqi, cfg, plist, 1, 0, cell), cfg=cfg, plist=plist, a=1, d=0)
+        for tkind in ["final", "two"]:                                                             # L20 integer solution array
+            cases.add("td/observe-int-solution", "observe_int", lambda: case_observe_int(cuqi, rng, q, tkind))
+        cases.add("custom-PDE-subclass", "custom_pde", lambda: case_custom_pde(cuqi, rng))        # L24
+        for kind, method, sk in [("td", "forward_euler", "default"), ("td", "backward_euler", "default"), ("ss", None, "default"), ("ss", None, "fake")]:   # L25
+            n, npar = rng.randint(3, 5), 2
+            for attempt in range(20):
+                if kind == "td":
+                    cfg = {"af": gen_af(rng, n, npar, "all", True), "times": gen_times(rng, "nonuniform", 4), "method": method, "solver": sk, "tag": 0, "gsol": None,
+                           "gobs": None, "tobs": "final", "omap": ["none"], "two_models": True, "tol": "12"}
+                else:
+                    cfg = {"steady": True, "af": gen_af(rng, n, npar, "all", False, steady=True), "solver": sk, "tag": 0, "gsol": None, "gobs": None, "omap": ["none"],
+                           "two_models": True, "tol": "12"}
+                x, y = gen_p(rng, npar), gen_p(rng, npar)
+                plist = [x, y, x, y, x]
+                if sk == "fake" or method == "forward_euler" or all(well_conditioned(cfg, [a_ * v + d_ for v in z]) for z in (x, y) for a_, d_ in ((1, 0), (2, 1))):
+                    break
+            cell = "%s/two-models-one-pde/%s/%s" % (kind, method or "steady", sk)
+            if kind == "td":
+                cases.add(cell, "td_forward", lambda: cases_td_forward(cuqi, cfg, plist, 1, 0, q, cell), cfg=cfg, plist=plist, a=1, d=0)
+            else:
+                cases.add(cell, "ss_forward", lambda: cases_ss_forward(cuqi, cfg, plist, 1, 0, cell), cfg=cfg, plist=plist, a=1, d=0)
+        for pt in [("abs", 12, "all"), ("abs", 12, "one"), ("copy",)]:                              # L26 large offsets of grids and times
+            kk = rng.randint(0, 2)
+            cfg = poly_ss_cfg(rng, rng.randint(4, 6), 0, pt, ["default", "fake", "real_tuple"][kk], goff=2.0 ** 24)
+            p = [rng.choice([0.0, 1.0, -2.0])]
+            cell = "ss/large-offset/%s" % pert_name(pt)
+            if cfg is not None:
+                cases.add(cell, "ss_direct", lambda: case_ss_direct(cuqi, cfg, p, cell), cfg=cfg, p=p, assembled=True)
+            cfg = poly_td_cfg(rng, rng.randint(4, 6), rng.randint(4, 6), 0, 0, pt, None if pt[0] != "copy" else 30, "forward_euler", "default", goff=2.0 ** 24, toff=2.0 ** 20)
+            cell = "td/large-offset/%s" % pert_name(pt)
+            if cfg is not None:
+                cases.add(cell, "td_direct", lambda: case_td_direct(cuqi, cfg, p, q, cell), cfg=cfg, p=p)
+    for which in ["Heat1D", "Poisson1D"]:                                                          # L22 shipped defaults
+        cases.add("testproblem/%s/shipped-defaults" % which, "tp_defaults", lambda: case_tp_defaults(cuqi, which))
 
     # ---- 5e. solutions with two space axes (solution.ndim = 3): restriction route vs the refusing interpolation route -------------------
     for _ in range(reps):
